@@ -14,7 +14,7 @@ SPEC = dict(
          "surface points and directions (lengths 0.2..2 x size); two-point orthogonal method vs analytic; mode "
          "'degenerate': two knots, zero length, full turns, axial / circumferential helices, nearly antipodal points, "
          "ellipsoid equator / meridian, torus inner / outer equator, a batch of 60 legacy-interface shots, one sphere and one "
-         "cylinder geodesic with 100..1000 knots; "
+         "cylinder geodesic with 100..1000 knots, objects resized through their setters (class after_setter); "
          "distinct = distinct input records",
     partial="(i) PROVED about the executed model: the analytic sphere / cylinder shooters as coded (frame accumulated by "
             "R = dR*R per knot) equal the closed-form great circle / helix at the trig pair of k*dAngle, hence every knot is "
